@@ -742,7 +742,11 @@ class Summaries:
         name = ctx.callee["name"]
         if name == "by_ref":
             return [(st, ctx.args[0])]
-        return [(st, Agg("adt", "core::iter::" + name, 0, list(ctx.args), ctx.dest_ty))]
+        args = list(ctx.args)
+        if name == "zip" and len(args) == 2 and isinstance(args[1], Agg) and args[1].kind == "array":
+            # zip(other: IntoIterator): an array argument is iterated by value
+            args[1] = Agg("adt", "core::array::into_iter", 0, [args[1]], None)
+        return [(st, Agg("adt", "core::iter::" + name, 0, args, ctx.dest_ty))]
 
     def s_range_new(self, ctx, st):
         """core::ops::range::RangeInclusive::new"""
@@ -778,6 +782,10 @@ class Summaries:
             return None
         ex = ctx.ex
         itv = self.deref_arg(ctx, st, ctx.args[0]) if ctx.args else None
+        if ctx.callee["name"] == "next" and isinstance(itv, Agg) and isinstance(ctx.args[0], Ptr):
+            xr = self.exact_next(ctx, st, ctx.args[0], itv)
+            if xr is not None:
+                return xr
         if ctx.callee["name"] == "next" and isinstance(itv, Agg) and itv.name == "core::iter::zip" and len(itv.fields) == 2 \
                 and isinstance(ctx.args[0], Ptr):
             z = self.zip_next(ctx, st, itv)
@@ -828,6 +836,146 @@ class Summaries:
                 if isinstance(pv, BoolV):
                     st2.facts.assume((ONE - some) + some * pv.p, 1)
         return res
+
+    # exact models of iterators over data of known length (constant tables, arrays, integer ranges): no event, the
+    # item and the exhaustion are concrete. Iterator state lives in extra trailing fields of the adaptor value.
+    def const_len_of(self, ctx, st, p):
+        n = self.ptr_len(ctx, st, p) if isinstance(p, Ptr) else None
+        return n.const_value() if n is not None else None
+
+    def concrete_len(self, ctx, st, itv, depth=0):
+        """remaining number of items of an exactly modelled iterator value, or None"""
+        if depth > 5 or not isinstance(itv, Agg):
+            return None
+        nm = itv.name or ""
+        f = itv.fields
+
+        def idx(k):
+            return (f[k].const() if len(f) > k and isinstance(f[k], IntV) else 0) or 0
+        if nm == "core::array::into_iter" and f and isinstance(f[0], Agg) and f[0].kind == "array":
+            return max(0, len(f[0].fields) - idx(1))
+        if nm in ("core::slice::iter", "core::slice::iter_mut") and f:
+            n = self.const_len_of(ctx, st, f[0])
+            return None if n is None else max(0, n - idx(1))
+        if nm in ("core::slice::chunks_exact", "core::slice::chunks_exact_mut") and len(f) >= 2 and isinstance(f[1], IntV):
+            n, c = self.const_len_of(ctx, st, f[0]), f[1].const()
+            return None if n is None or not c else max(0, n // c - idx(2))
+        if nm.startswith("core::ops::range::Range") and len(f) >= 2 and isinstance(f[0], IntV) and isinstance(f[1], IntV):
+            lo, hi = f[0].const(), f[1].const()
+            if lo is None or hi is None:
+                return None
+            if nm.endswith("RangeInclusive"):
+                exh = f[2].const() if len(f) > 2 and isinstance(f[2], BoolV) else 0
+                return 0 if exh or lo > hi else hi - lo + 1
+            return max(0, hi - lo)
+        if nm in ("core::iter::enumerate", "core::iter::copied", "core::iter::cloned", "core::iter::map") and f:
+            inner = self.deref_arg(ctx, st, f[0])
+            return self.concrete_len(ctx, st, inner, depth + 1)
+        if nm == "core::iter::zip" and len(f) == 2:
+            a = self.concrete_len(ctx, st, self.deref_arg(ctx, st, f[0]), depth + 1)
+            b = self.concrete_len(ctx, st, self.deref_arg(ctx, st, f[1]), depth + 1)
+            return None if a is None or b is None else min(a, b)
+        return None
+
+    def exact_next(self, ctx, st, p, itv):
+        """next() of an exactly modelled iterator stored at pointer p: -> [(state, Option value)] or None"""
+        ex = ctx.ex
+        nm = itv.name or ""
+        f = list(itv.fields)
+        dt = ex.normalize(ctx.dest_ty) if ctx.dest_ty is not None else None
+        item_ty = dt["args"][0] if dt and dt.get("k") == "adt" and dt.get("args") else None
+
+        def some(x):
+            return Agg("adt", OPTION, 1, [x], dt)
+        none = Agg("adt", OPTION, 0, [], dt)
+
+        def idx(k):
+            return (f[k].const() if len(f) > k and isinstance(f[k], IntV) else 0) or 0
+
+        def store(k, val):
+            g = list(f)
+            while len(g) <= k:
+                g.append(IntV(ex.pbits, False, p=ZERO))
+            g[k] = IntV(ex.pbits, False, p=Poly.const(val))
+            ex.write(st, p.root, p.path, Agg(itv.kind, itv.name, itv.variant, g, itv.ty, itv.extra), p.pty)
+        if nm == "core::array::into_iter":
+            if self.concrete_len(ctx, st, itv) is None:
+                return None
+            i = idx(1)
+            if i >= len(f[0].fields):
+                return [(st, none)]
+            store(1, i + 1)
+            return [(st, some(f[0].fields[i]))]
+        if nm in ("core::slice::iter", "core::slice::iter_mut"):
+            if self.concrete_len(ctx, st, itv) is None or not isinstance(f[0], Ptr):
+                return None
+            n, i = self.const_len_of(ctx, st, f[0]), idx(1)
+            if i >= n:
+                return [(st, none)]
+            store(1, i + 1)
+            ety = item_ty.get("ty") if item_ty and item_ty.get("k") == "ref" else None
+            return [(st, some(Ptr(f[0].root, self.elem_path(f[0], i), None, ety, f[0].mut and nm.endswith("_mut"))))]
+        if nm in ("core::slice::chunks_exact", "core::slice::chunks_exact_mut"):
+            if self.concrete_len(ctx, st, itv) is None or not isinstance(f[0], Ptr):
+                return None
+            n, c, i = self.const_len_of(ctx, st, f[0]), f[1].const(), idx(2)
+            if i >= n // c:
+                return [(st, none)]
+            store(2, i + 1)
+            sp = f[0]
+            base, path = 0, sp.path
+            if path and path[-1][0] == "s":
+                base, path = path[-1][1], path[:-1]
+            ety = item_ty["ty"].get("ty") if item_ty and item_ty.get("k") == "ref" and item_ty["ty"].get("k") == "slice" else None
+            q = Ptr(sp.root, path + (("s", base + i * c, base + (i + 1) * c),), IntV(ex.pbits, False, p=Poly.const(c)),
+                    {"k": "slice", "ty": ety}, sp.mut and nm.endswith("_mut"))
+            return [(st, some(q))]
+        if nm.startswith("core::ops::range::Range") and self.concrete_len(ctx, st, itv) is not None:
+            lo, hi = f[0].const(), f[1].const()
+            incl = nm.endswith("RangeInclusive")
+            if self.concrete_len(ctx, st, itv) == 0:
+                return [(st, none)]
+            g = list(f)
+            if incl and lo == hi:
+                while len(g) <= 2:
+                    g.append(BoolV(ZERO))
+                g[2] = BoolV(ONE)
+            else:
+                g[0] = IntV(f[0].bits, f[0].signed, p=Poly.const(lo + 1))
+            ex.write(st, p.root, p.path, Agg(itv.kind, itv.name, itv.variant, g, itv.ty, itv.extra), p.pty)
+            return [(st, some(IntV(f[0].bits, f[0].signed, p=Poly.const(lo))))]
+        if nm in ("core::iter::enumerate", "core::iter::copied", "core::iter::cloned", "core::iter::map"):
+            if self.concrete_len(ctx, st, itv) is None:
+                return None
+            inner = f[0]
+            recv = inner if isinstance(inner, Ptr) else Ptr(p.root, tuple(p.path) + (("f", 0, None),), None, getattr(inner, "ty", None), True)
+            iv = self.deref_arg(ctx, st, recv)
+            if not isinstance(iv, Agg):
+                return None
+            # item type of the inner iterator is not needed by the exact models below (they build values directly)
+            c2 = type(ctx)(ex, ctx.fr, ctx.callee, ctx.r, [recv], None, ctx.span, ctx.key)
+            r = self.exact_next(c2, st, recv, iv)
+            if r is None or len(r) != 1:
+                return None
+            s2, ov = r[0]
+            if ov.variant == 0:
+                return [(s2, none)]
+            x = ov.fields[0]
+            if nm == "core::iter::enumerate":
+                # re-read: the inner update rewrote our own value when the inner iterator is stored inline
+                cur = ex.read(s2, p.root, p.path, p.pty)
+                g = list(cur.fields) if isinstance(cur, Agg) else list(f)
+                cnt = (g[1].const() if len(g) > 1 and isinstance(g[1], IntV) else 0) or 0
+                while len(g) <= 1:
+                    g.append(IntV(ex.pbits, False, p=ZERO))
+                g[1] = IntV(ex.pbits, False, p=Poly.const(cnt + 1))
+                ex.write(s2, p.root, p.path, Agg(itv.kind, itv.name, itv.variant, g, itv.ty, itv.extra), p.pty)
+                tty = item_ty if item_ty and item_ty.get("k") == "tuple" else None
+                return [(s2, some(Agg("tuple", None, None, [IntV(ex.pbits, False, p=Poly.const(cnt)), x], tty)))]
+            if nm in ("core::iter::copied", "core::iter::cloned"):
+                return [(s2, some(self.deref_arg(ctx, s2, x)))]
+            return [(s3, some(v)) for s3, v in self.call_f(ctx, s2, f[1], [x])]
+        return None
 
     def zip_next(self, ctx, st, itv):
         """core::iter::Zip::next, exactly as the library does it: pull from the first iterator; if it is exhausted
